@@ -230,3 +230,15 @@ def sorted_frame(n):
 
 
 timestamp = label_at = has_complete = sorted_frame
+
+
+def row_frame(cols, label="input"):
+    raise RuntimeError("row_frame() has no native meaning (row-wise model); see the bounded parts")
+
+
+cell_kind = cell_val = has_column = depends_on = row_frame
+cell_val_month = cell_val_dow = row_frame
+
+
+def string(s):
+    return s
